@@ -240,6 +240,9 @@ pub enum ScBlock {
     Security { method: u32, level: u32 },
     Net { io_channel: u16, ids: Vec<u16>, pad: bool },
     Unknown { typ: u16, body: Vec<u8> },
+    /// SC_SECURITY as a server that selects Standard RDP Security sends it: with serverRandomLen, serverCertLen, the random and
+    /// the certificate
+    SecurityFull { method: u32, level: u32, random: Vec<u8>, cert: Vec<u8> },
 }
 
 #[derive(Debug, Clone, PartialEq, Eq, Hash, serde::Serialize, serde::Deserialize)]
@@ -282,6 +285,15 @@ pub fn build_sc_blocks(blocks: &[ScBlock]) -> Built {
                     body.u16le("pad", 0);
                 }
                 0x0C03
+            }
+            ScBlock::SecurityFull { method, level, random, cert } => {
+                body.u32le("encryptionMethod", *method);
+                body.u32le("encryptionLevel", *level);
+                body.u32le("serverRandomLen", random.len() as u32);
+                body.u32le("serverCertLen", cert.len() as u32);
+                body.blob("serverRandom", random);
+                body.blob("serverCertificate", cert);
+                0x0C02
             }
             ScBlock::Unknown { typ, body: bb } => {
                 body.blob("body", bb);
